@@ -39,6 +39,7 @@ type Config struct {
 	QueryMean   float64            `json:"queryMean"`
 	EVM         bool               `json:"evm"`
 	AvoidKnown  bool               `json:"avoidKnown"` // do not generate the shapes of listed known findings
+	RewardCliff int                `json:"rewardCliff,omitempty"` // K > 0: one whale validator and a reward rate at which its owner's claim passes 2^255 after about K blocks (the world ends before anything can reach 2^256)
 }
 
 type GenActor struct {
